@@ -280,7 +280,6 @@ private:
     static std::uint32_t pdu_duration_us( std::size_t payload ) { return static_cast< std::uint32_t >( ( 1 + 4 + 2 + payload + 3 ) * 8 ); }
 };
 
-radio_state* g_current_radio = nullptr;
 
 // ------------------------------------------------------------------------------------------------ implementation
 inline void world::run( const sim::Plan& plan )
@@ -288,6 +287,8 @@ inline void world::run( const sim::Plan& plan )
     // per run knobs
     p_drift_ = static_cast< double >( plan.knob( "p_drift_ppm", 0 ) ) * 1e-6;
     r_.setup_margin_us = static_cast< std::uint32_t >( plan.knob( "setup_margin_us", 300 ) );
+    r_.refuse_disarm = plan.knob( "refuse_disarm", 0 ) != 0;
+    if ( r_.refuse_disarm ) res_.fault( "radio_refuses_disarm" );
     r_.now_us = r_.t0_us = 0;
     long idx = -1;
     snapshot_adv_schedule();
